@@ -386,6 +386,10 @@ def finish(rep, obligations, gate, checker_cmd, level_note_partial):
         "violations": len(new_fail) + (1 if (broken and not new_fail) else 0),
     }
     ev["coverage"].update(rep.extra)
+    # keys the evidence schema types: keep them well-typed whatever a property module put there
+    for k, ty in (("exhaustive", bool), ("evaluations", int), ("distinct_nontrivial", int), ("states", int), ("transitions", int)):
+        if k in ev["coverage"] and not isinstance(ev["coverage"][k], ty):
+            ev["coverage"][k + "_note"] = ev["coverage"].pop(k)
     os.makedirs(EVIDENCE, exist_ok=True)
     with open(os.path.join(EVIDENCE, prop + ".json"), "w") as f:
         json.dump(ev, f, indent=1, default=str)
